@@ -308,6 +308,11 @@ def _templates():
                    ('C3', 'C', _addv(n1, _pol(1.45, 30)))], {'N1': 'NAM', 'O1': 'O2'}, 'N1')
     ring = [('C%d' % (i + 1), 'C', _pol(1.39, 60 * i)) for i in range(6)]
     mol['ANL'] = (ring + [('N7', 'N', _pol(1.39 + 1.40, 0))], {'N7': 'NP1'}, 'N7')
+    # terminal sp atoms bound to another element (hydrogen cyanide, methyl isocyanide)
+    mol['HCN'] = ([('C1', 'C', (0, 0, 0)), ('N1', 'N', (1.16, 0, 0))], {'N1': 'N1'}, 'N1')
+    mol['MIC'] = ([('C1', 'C', (0, 0, 0)), ('N1', 'N', (1.17, 0, 0)), ('C2', 'C', (1.17 + 1.43, 0, 0))], {}, 'C1')
+    # quaternary ammonium: four heavy neighbours, no amine group type
+    mol['QMA'] = ([('N1', 'N', (0, 0, 0))] + [('C%d' % (i + 1), 'C', _tet(i, 1.50)) for i in range(4)], {}, 'C1')
     # aryl halides: the free position of the substituted ring carbon is exactly where the halogen sits
     mol['CLB'] = (ring + [('CL7', 'Cl', _pol(1.39 + 1.74, 0))], {'CL7': 'Cl'}, 'CL7')
     mol['BRB'] = (ring + [('BR7', 'Br', _pol(1.39 + 1.90, 0)), ('CL8', 'Cl', _pol(1.39 + 1.74, 180))], {'CL8': 'Cl'}, 'CL8')
